@@ -1035,6 +1035,8 @@ _TB_POS = {
     "control-line": (["% if boom():", "x", "% endif"], 1),
     "def-body": (["<%def name=\"d()\">", "in def ${boom()}", "</%def>", "${d()}"], 2),
     "call-body": (["<%def name=\"w()\">${caller.body()}</%def>", "<%call expr=\"w()\">", "  ${boom()}", "</%call>"], 3),
+    # the body of a call to a def of ANOTHER template: page -> lib's def -> back into the page
+    "call-body-of-a-def-in-another-template": (["<%namespace name=\"lib\" file=\"/lib.mako\"/>", "<%lib:wrap>", "  ${boom()}", "</%lib:wrap>"], 3),
 }
 
 
@@ -1062,25 +1064,28 @@ def traceback_probe(position, source, lead):
         fn = os.path.join(base, "page.mako")
         with open(fn, "w") as f:
             f.write(text)
+        with open(os.path.join(base, "lib.mako"), "w") as f:
+            f.write("<%def name=\"wrap()\">[${caller.body()}]</%def>\n")
+        lib = {"lookup": TemplateLookup([base])} if "another-template" in position else {}
         real_mods = os.path.join(base, "modules")
         link = os.path.join(base, "link")
         os.symlink(base, link)              # <base>/link -> <base>: every path below can also be spelled through the link
         name = fn
         if source == "string":
-            t = Template(text)
+            t = Template(text, **lib)
             name = t.uri
         elif source == "string-with-uri":
-            t = Template(text, uri="/some/uri.html")
+            t = Template(text, uri="/some/uri.html", **lib)
             name = "/some/uri.html"
         elif source == "file":
-            t = Template(filename=fn)
+            t = Template(filename=fn, **lib)
         elif source == "lookup":
             t = TemplateLookup([base]).get_template("page.mako")
         elif source == "module-file":
-            t = Template(filename=fn, module_directory=real_mods)
+            t = Template(filename=fn, module_directory=real_mods, **lib)
         elif source == "module-file-reload":
-            Template(filename=fn, module_directory=real_mods)
-            t = Template(filename=fn, module_directory=real_mods)
+            Template(filename=fn, module_directory=real_mods, **lib)
+            t = Template(filename=fn, module_directory=real_mods, **lib)
         elif source == "module-file-after-edit":
             # the dev-server loop: an earlier version of the file fails (its error is formatted), the file is edited so that
             # everything moves down, and the new version is loaded into the same module directory in the same process
@@ -1089,7 +1094,7 @@ def traceback_probe(position, source, lead):
             old = os.stat(fn).st_mtime
             os.utime(fn, (old - 100, old - 100))
             try:
-                Template(filename=fn, module_directory=real_mods).render(boom=boom)
+                Template(filename=fn, module_directory=real_mods, **lib).render(boom=boom)
             except Boom:
                 exceptions.RichTraceback()
                 exceptions.text_error_template().render()
@@ -1097,9 +1102,9 @@ def traceback_probe(position, source, lead):
                 f.write(text + "one more line\n" * 3)
             import time
             os.utime(fn, (time.time() + 5, time.time() + 5))       # whole seconds later than the module file
-            t = Template(filename=fn, module_directory=real_mods)
+            t = Template(filename=fn, module_directory=real_mods, **lib)
         elif source == "module-directory-through-symlink":
-            t = Template(filename=fn, module_directory=os.path.join(link, "modules"))
+            t = Template(filename=fn, module_directory=os.path.join(link, "modules"), **lib)
         elif source == "lookup-through-symlink":
             t = TemplateLookup([link], module_directory=os.path.join(link, "modules")).get_template("page.mako")
             name = os.path.join(link, "page.mako")
@@ -1107,15 +1112,18 @@ def traceback_probe(position, source, lead):
             raise ValueError(source)
         try:
             t.render(boom=boom)
-            return (("no exception",), (True, want_line, all_lines[want_line - 1]))
+            return (("no exception",), (True, want_line, all_lines[want_line - 1], all_lines[want_line - 1]))
         except Boom:
             tb = exceptions.RichTraceback()
         recs = [r for r in tb.records if r[4] is not None]
         if not recs:
-            return (("no template frame reported", [r[0] for r in tb.records][-3:]), (True, want_line, all_lines[want_line - 1]))
+            return (("no template frame reported", [r[0] for r in tb.records][-3:]), (True, want_line, all_lines[want_line - 1], all_lines[want_line - 1]))
         r = recs[-1]
         same_file = r[4] == name or (os.path.exists(str(r[4])) and os.path.exists(name) and os.path.samefile(r[4], name))
-        return ((same_file, r[5], r[6]), (True, want_line, all_lines[want_line - 1]))
+        # what the error pages show as the excerpt: RichTraceback.source at RichTraceback.lineno
+        src_lines = (tb.source or "").split("\n")
+        excerpt = src_lines[tb.lineno - 1] if tb.lineno and 0 < tb.lineno <= len(src_lines) else None
+        return ((same_file, r[5], r[6], excerpt), (True, want_line, all_lines[want_line - 1], all_lines[want_line - 1]))
     finally:
         shutil.rmtree(base, ignore_errors=True)
 
